@@ -54,7 +54,9 @@ func createPlugin(req *pluginpb.CodeGeneratorRequest) *protogen.Plugin {
 	opts := protogen.Options{}
 	plugin, err := opts.New(req)
 	if err != nil {
-		panic(err)
+		// same behaviour as protogen.Options.Run: a one-line diagnostic and a non-zero exit status
+		fmt.Fprintf(os.Stderr, "protoc-gen-openapiv3: %v\n", err)
+		os.Exit(1)
 	}
 	return plugin
 }
